@@ -2750,8 +2750,7 @@ impl SctpInner {
 
     async fn process_data_payload(&self, flags: u8, chunk: Bytes) -> Result<()> {
         let mut buf = chunk;
-        // Skip TSN (4 bytes)
-        buf.advance(4);
+        let tsn = buf.get_u32();
 
         let stream_id = buf.get_u16();
         let stream_seq = buf.get_u16();
@@ -2795,6 +2794,10 @@ impl SctpInner {
             let unordered = (flags & 0x04) != 0;
 
             let mut buffer = dc.reassembly_buffer.lock();
+            // Fragments of one message carry consecutive TSNs. If a FORWARD-TSN
+            // skipped some of them (partial reliability), the remainder must not
+            // be glued together or delivered as a message of its own.
+            let mut next_tsn = dc.reassembly_next_tsn.lock();
             if b_bit {
                 if !buffer.is_empty() {
                     debug!(
@@ -2803,7 +2806,14 @@ impl SctpInner {
                     );
                 }
                 buffer.clear();
+            } else if *next_tsn != Some(tsn) {
+                debug!("SCTP Reassembly: fragment tsn={} without its predecessor, dropping", tsn);
+                buffer.clear();
+                *next_tsn = None;
+                return Ok(());
             }
+            *next_tsn = if e_bit { None } else { Some(tsn.wrapping_add(1)) };
+            drop(next_tsn);
             buffer.extend_from_slice(&user_data);
             if e_bit {
                 let msg = std::mem::take(&mut *buffer).freeze();
